@@ -239,6 +239,17 @@ pub fn checksum_text(rng: &mut Rng, well_formed: bool) -> String {
             "sha1:00,md5",
             "md5:abc",
             "sha1:zz",
+            "sha1:+f",
+            "sha1:-1",
+            "sha1: f",
+            "sha1:f ",
+            "sha1:0x",
+            "sha1:0X1f",
+            "sha1:+f,md5:00",
+            "md5:0,sha1:1",
+            "a:1,b:2,c:3,d:4",
+            "sha1:०१",
+            "sha1:ａｂ",
             "é:0",
             "sha1:00,sha1:00",
         ]))
@@ -345,6 +356,10 @@ pub fn spell(c: &Components, seed: u64) -> String {
             }
             if !plain && rng.chance(1, 8) {
                 s.push_str(*rng.pick(&["./", "../", "/"]));
+            }
+            if !plain && rng.chance(1, 40) {
+                // Dot segments hidden behind escapes (the parser refuses these).
+                s.push_str(*rng.pick(&["%2E/", "%2e%2E/", ".%2e/", "%2E%2e/"]));
             }
             s.push_str(&encode_component(seg, MUST_SUBPATH_SEGMENT, &mut rng, plain));
         }
